@@ -1,6 +1,7 @@
 package main
 
 import (
+	"go/ast"
 	"fmt"
 	"go/token"
 	"go/types"
@@ -2770,5 +2771,223 @@ func ruleRefusalsOfPack(id string) func(*Checker) {
 				c.check(reason != "", id, p.FuncName(fn), what, p.Pos(cl.Pos()), reason, "Pack returns an error of its own making that is neither a policy rejection (IllegalSlugError), a limit, nor the report of an unknown file mode: a refusal decided from metadata alone — a tree that packed before is refused now")
 			}
 		}
+	}
+}
+
+// ---- round 15 ----
+
+// ruleSubPathFromSplitterOnly — the parsers take the sub-path from the one splitter and nowhere else.
+func ruleSubPathFromSplitterOnly(id string) func(*Checker) {
+	return func(c *Checker) {
+		c.rule(id, "In the parsers that split an address into package and sub-path, the sub-path handed to the normaliser is the second result of the one sub-path splitter, as returned: it is not merged with a second derivation (another search for \"//\" elsewhere in the address). The splitter stops at the query string and the printers rely on it: they put the query out as it is, so a parser that also looks behind the '?' reads back a value with a doubled slash in its query as a shorter query plus a sub-path.", 2)
+		p := c.P
+		split := p.Fn(addrPkg, "splitSubPath")
+		norm := p.Fn(addrPkg, "normalizeSubpath")
+		if split == nil || norm == nil {
+			c.anchorMissing(id, "splitSubPath / normalizeSubpath")
+			return
+		}
+		isSplitRes := func(v ssa.Value, idx int) bool {
+			ex, ok := v.(*ssa.Extract)
+			if !ok || ex.Index != idx {
+				return false
+			}
+			cl, ok := ex.Tuple.(*ssa.Call)
+			return ok && cl.Common().StaticCallee() == split
+		}
+		n := 0
+		for _, fn := range p.Funcs {
+			if fn.Pkg == nil || fn.Pkg.Pkg.Path() != p.PkgPath(addrPkg) {
+				continue
+			}
+			for _, ci := range callsIn(fn) {
+				cl, ok := ci.(*ssa.Call)
+				if !ok || cl.Common().StaticCallee() != norm {
+					continue
+				}
+				arg := cl.Call.Args[0]
+				fromSplit := false
+				for w := range p.backSlice(arg, 0) {
+					if isSplitRes(w, 1) || isSplitRes(w, 0) {
+						fromSplit = true
+					}
+				}
+				if !fromSplit {
+					continue
+				}
+				n++
+				// leaves through phis only
+				okAll := true
+				seen := map[ssa.Value]bool{}
+				var walk func(v ssa.Value)
+				walk = func(v ssa.Value) {
+					if seen[v] {
+						return
+					}
+					seen[v] = true
+					if ph, ok := v.(*ssa.Phi); ok {
+						for _, e := range ph.Edges {
+							walk(e)
+						}
+						return
+					}
+					if !isSplitRes(v, 1) {
+						okAll = false
+					}
+				}
+				walk(arg)
+				c.check(okAll, id, p.FuncName(fn), "sub-path as the splitter returned it", p.Pos(cl.Pos()), "the normalised sub-path is the splitter's second result", "the sub-path that is normalised is not (only) what the sub-path splitter returned: the address is searched for a separator a second time, somewhere the splitter deliberately does not look, and a printed address can parse back to a different value")
+			}
+		}
+		c.check(n >= 2, id, "-", "parsers normalising the splitter's sub-path", "-", fmt.Sprintf("%d site(s)", n), "fewer than two parsers hand the splitter's sub-path to the normaliser")
+	}
+}
+
+// ruleRecordNotBehindMemo — what an entry point records for the manifest does not depend on whether another
+// table already knew the request.
+func ruleRecordNotBehindMemo(id string) func(*Checker) {
+	return func(c *Checker) {
+		c.rule(id, "In the exported Add… methods of the builder, an update of a Builder map that the manifest writer reads is not made only on the miss edge (or only on the hit edge) of a comma-ok lookup in another Builder map: the other map is filled by dependency discovery as well, so whether the lookup hits depends on the order of the calls, and the manifest — which must be a function of the set of requests — would record the request in one order and not in the other. (Today the entry points update no manifest table at all; the rule arms itself when one does.)", 0)
+		p := c.P
+		wm := p.Fn(bundlePkg, "Builder.writeManifest")
+		if wm == nil {
+			c.anchorMissing(id, "Builder.writeManifest")
+			return
+		}
+		read := map[string]bool{}
+		for f := range p.family(wm) {
+			eachInstr(f, func(in ssa.Instruction) {
+				if fa, ok := in.(*ssa.FieldAddr); ok && isNamedT(derefType(fa.X.Type()), "Builder") {
+					read[fieldOf(fa).Name()] = true
+				}
+			})
+		}
+		entries := 0
+		for _, fn := range p.Funcs {
+			if !inBundlePkg(p, fn) || fn.Signature.Recv() == nil || !isNamedT(derefType(fn.Signature.Recv().Type()), "Builder") {
+				continue
+			}
+			if !ast.IsExported(fn.Name()) || !strings.HasPrefix(fn.Name(), "Add") {
+				continue
+			}
+			entries++
+			name := p.FuncName(fn)
+			// comma-ok tests of Builder maps
+			type test struct {
+				field string
+				b     *ssa.BasicBlock
+			}
+			var tests []test
+			for _, b := range fn.Blocks {
+				ifi, ok := b.Instrs[len(b.Instrs)-1].(*ssa.If)
+				if !ok {
+					continue
+				}
+				cnd, _ := stripNot(ifi.Cond)
+				ex, ok := cnd.(*ssa.Extract)
+				if !ok || ex.Index != 1 {
+					continue
+				}
+				lk, ok := ex.Tuple.(*ssa.Lookup)
+				if !ok {
+					continue
+				}
+				if f := builderMapOf(lk.X); f != "" {
+					tests = append(tests, test{f, b})
+				}
+			}
+			eachInstr(fn, func(in ssa.Instruction) {
+				mu, ok := in.(*ssa.MapUpdate)
+				if !ok {
+					return
+				}
+				f := builderMapOf(mu.Map)
+				if f == "" || !read[f] {
+					return
+				}
+				for _, t := range tests {
+					if t.field == f {
+						continue
+					}
+					for i := 0; i < 2; i++ {
+						if guarded(mu.Block(), []Edge{{t.b, i}}) {
+							c.fail(id, name, "record into "+f+" behind the test of "+t.field, p.Pos(mu.Pos()), "the manifest table "+f+" is updated only on one side of a lookup in "+t.field+", which dependency discovery fills too: the same set of Add calls records the request or not depending on their order")
+						}
+					}
+				}
+			})
+		}
+		c.check(entries >= 2, id, "-", "exported Add methods examined", "-", fmt.Sprintf("%d method(s)", entries), "the builder's Add entry points were not found")
+	}
+}
+
+// ruleRuleFileRefusals — a rule file is refused only for what the line scanner reports.
+func ruleRuleFileRefusals(id string) func(*Checker) {
+	return func(c *Checker) {
+		c.rule(id, "In what ParseIgnoreFileContent reaches inside the ignore-file package, the only failed library call whose error is handed on (returned, or wrapped into the returned error) is (*bufio.Scanner).Err, and no error is made on the spot: the callers answer an error by falling back to the default rules, so every further way of failing — a short read while peeking at the first bytes, a line judged too odd — silently replaces the user's rules with the defaults for files that were honoured before.", 1)
+		p := c.P
+		parse := p.Fn("ignorefiles", "ParseIgnoreFileContent")
+		if parse == nil {
+			c.anchorMissing(id, "ignorefiles.ParseIgnoreFileContent")
+			return
+		}
+		allowed := func(o *types.Func) bool {
+			return isMethod(o, "bufio", "Scanner", "Err")
+		}
+		n := 0
+		for _, fn := range sortedFuncs(p.reach(parse)) {
+			if !p.InModule(fn) || pkgPathOf(p, fn) != p.PkgPath("ignorefiles") {
+				continue
+			}
+			for _, ci := range callsIn(fn) {
+				cl, ok := ci.(*ssa.Call)
+				if !ok {
+					continue
+				}
+				o := calleeObj(cl)
+				if g := cl.Common().StaticCallee(); g != nil && p.InModule(g) {
+					continue
+				}
+				if isFunc(o, "errors", "New") || isFunc(o, "fmt", "Errorf") {
+					hasCause := false
+					for _, a := range errorArgsOfFresh(cl) {
+						for w := range p.backSlice(a, 0) {
+							if k, ok := w.(*ssa.Call); ok && k != cl {
+								if res := k.Call.Signature().Results(); res.Len() > 0 && isErrorType(res.At(res.Len()-1).Type()) {
+									hasCause = true
+								}
+							}
+						}
+					}
+					if u := p.errorUses(fn, cl); !hasCause && (u.Returned || u.PassedOn) {
+						c.fail(id, p.FuncName(fn), "error made on the spot", p.Pos(cl.Pos()), "reading a rule file fails for a reason decided here, not reported by the line scanner: the caller falls back to the default rules")
+					}
+					continue
+				}
+				res := cl.Call.Signature().Results()
+				if res.Len() == 0 || !isErrorType(res.At(res.Len()-1).Type()) {
+					continue
+				}
+				ev := errValueOf(cl)
+				if ev == nil {
+					continue
+				}
+				u := p.errorUses(fn, ev)
+				if !u.Returned && !u.PassedOn {
+					continue
+				}
+				nm := "a dynamic call"
+				if o != nil {
+					nm = o.FullName()
+				}
+				if allowed(o) {
+					n++
+					c.pass(id, p.FuncName(fn), "handed-on error of "+nm, p.Pos(cl.Pos()), "the line scanner's error")
+					continue
+				}
+				c.fail(id, p.FuncName(fn), "handed-on error of "+nm, p.Pos(cl.Pos()), "reading a rule file can now fail because "+nm+" failed: a file that was honoured before (a one-byte file, a file on a slow reader) is answered with the default rules instead")
+			}
+		}
+		c.check(n >= 1, id, "-", "scanner error handed on", "-", fmt.Sprintf("%d site(s)", n), "the line scanner's error is no longer handed on by the rule reader")
 	}
 }
